@@ -16,7 +16,7 @@ TOL = 1e-9
 
 
 def units(tier):
-    return [(i, 2500) for i in range(8)] if tier == "quick" else [(i, 60000) for i in range(16)]
+    return [(i, 2500) for i in range(8)] if tier == "quick" else [(i, 30000) for i in range(16)]
 
 
 def strategy(tier, unit):
